@@ -278,7 +278,8 @@ def check_roundtrip(case, ctx):
                 raise Violation('roundtrip:decode-auto', f'decode({data!r}) = {a[0]!r}, expected {rewrite(ref_auto, det[0])!r} ({det})')
             if canon(det[0]) == canon(used) or (canon(det[0]), canon(used)) == ('utf-8-sig', 'utf-8'):
                 # the rule names the encoding actually used; its spelling (case, alias) may differ
-                if rewrite(a[0], 'X') != rewrite(want, 'X') and rewrite(a[0], 'X') != rewrite(want, 'X').removeprefix('﻿'):  # one leading U+FEFF is the signature
+                # one leading U+FEFF is the signature; the rule behind it is rewritten like a leading one
+                if rewrite(a[0], 'X') not in (rewrite(want, 'X'), rewrite(want, 'X').removeprefix('﻿'), rewrite(want.removeprefix('﻿'), 'X')):
                     raise Violation('roundtrip:auto-text-not-restored', f'{t!r} -[{used}]-> {data!r} -> {a[0]!r}')
             ctx.event('auto-detected')
     ctx.event('enc:' + enc)
